@@ -108,6 +108,9 @@ func checkC02(r *Run) {
 	diamonds := starDiamondGraphs()
 	r.Count("export_star_diamond_graphs", len(diamonds))
 	cycles = append(cycles, diamonds...)
+	throwers := throwGraphs()
+	r.Count("throwing_module_graphs", len(throwers))
+	cycles = append(cycles, throwers...)
 	total := ngraphs + len(specs) + len(cycles)
 	parallel(total, 16, func(i int) {
 		rng := newRng(r.Seed, fmt.Sprint("c02g", i))
